@@ -26,8 +26,8 @@ CLAIMS = {
          "6.C06", "net.Conn / gorilla Conn are contract models (DESIGN 6.C06); whole-stream exactness follows from per-packet exactness plus C08 framing (paper argument); multi-MiB streams and interleaving of the two directions are outside."),
  "C07": ("One arbitrary packet on tunnel A from an arbitrary phase while a fully symbolic tunnel B is registed: B's phase, identity, token host, address, transports, backend and registry entry and the shared Gateway are asserted unchanged; HandleGatewayProtocol run for two requests with symbolic connection ids and kinds shows connections share a tunnel only under equal ids.",
          "6.C07", "2 tunnels, 1 step; 3..64 tunnels and real scheduling are not explored (commutation of disjoint steps is a paper argument); go-cache is a contract stub."),
- "C08": ("readMessage/readHeader run on every segmentation shape of k<=2 (3) packets: whole, two-fragment at every cut, three-fragment, coalesced, oversize first fragment, and a single arbitrary read with all 2^32 length-field values.",
-         "6.C08", "Transport stub per Appendix C; bodies <= 2 (6) bytes; three known findings (split3, coalesce, bigfrag) are reported as KNOWN-FINDING, each by its own harness/label; gorilla/httputil chunking itself is outside."),
+ "C08": ("Tunnel.Read/readMessage/readHeader run on every segmentation shape of k<=2 (3) packets: whole, two-fragment at every cut, three-fragment, coalesced, oversize first fragment, every combination of 2 (3) cuts of the whole stream independent of packet boundaries, and a single arbitrary read with all 2^32 length-field values; the legacy chunked body through the real NewLegacy/ReadPacket.",
+         "6.C08", "Transport stub per Appendix C; bodies <= 2 (6) bytes; the three segmentation defects found here (split3, coalesce, bigfrag) were repaired in 1717b2e and are now plain assertions; net/http's chunked reader is interpreted for the legacy IN body (VP_C08_legacy_chunks); gorilla's websocket framing is outside."),
  "C09": ("Lockset analysis over the executor's heap-access logs: handler threads of two tunnels and their relay goroutines (cooperative scheduler: goroutines switch where the running one blocks) - any pair of accesses to Tunnel/Gateway/registry/client-writer state from different threads with a write, no common sync.Mutex and no spawn order is a violation, replayed natively under the Go race detector.",
          "6.C09", "No schedule exploration: lockset is conservative for mutex discipline but blind to channel-based ordering; races inside gorilla/net/http/go-cache are outside; 2 websocket tunnels, one scenario shape."),
  "C10": ("Every implicit runtime panic on every explored path is an SMT obligation: protocol parsers and readHeader on arbitrary bytes, the Process step, legacy request orderings, the NTLM verifier on arbitrary messages and on adversarial security-buffer descriptors (real go-ntlm parser code interpreted), Authorization header slicing, KDC-proxy list merge and channel accounting.",
